@@ -121,6 +121,17 @@ func runProgram(cfg cfgT, ms []method, seed int64, accepted bool) {
 		panic("harness: accept failed")
 	}
 	srv2, _ := l.AcceptKCP()
+	if srv2 == nil && srv.RemoteAddr().String() != cc.LocalAddr().String() {
+		l.SetReadDeadline(time.Now().Add(10 * time.Second))
+		if srv2, _ = l.AcceptKCP(); srv2 == nil {
+			panic("harness: the session of the client under test was not accepted")
+		}
+	}
+	if srv2 != nil && srv.RemoteAddr().String() != cc.LocalAddr().String() {
+		// the neighbour's first packet was processed first: srv must be the session whose peer is cli (observed under CPU load: with
+		// the two swapped, cli never receives anything, and a program that clears its read deadline waits in Read for ever)
+		srv, srv2 = srv2, srv
+	}
 	stop := make(chan struct{})
 	var bg sync.WaitGroup
 	// background traffic both ways on the session under test and on the neighbour session
@@ -175,7 +186,45 @@ func runProgram(cfg cfgT, ms []method, seed int64, accepted bool) {
 			}
 		}(i, m)
 	}
+	// watchdog: a program that does not finish within 30 s of wall time is reported with the state of both ends, then released by
+	// closing the sessions (a blocked call returns on Close)
+	finished := make(chan struct{})
+	go func() {
+		select {
+		case <-finished:
+		case <-time.After(30 * time.Second):
+			names := []string{}
+			for _, m := range ms {
+				names = append(names, m.Name)
+			}
+			peer := srv
+			if accepted {
+				peer = cli
+			}
+			desc := func(st kcp.VerifKCPState) string {
+				mx := 0
+				for _, sg := range st.SndBuf {
+					if int(sg.Xmit) > mx {
+						mx = int(sg.Xmit)
+					}
+				}
+				return fmt.Sprintf("{rcvq=%d rcvb=%d sndq=%d sndb=%d rcvwnd=%d sndwnd=%d rmtwnd=%d cwnd=%d headfrg=%d buflen=%d una=%d nxt=%d rcvnxt=%d rto=%d maxxmit=%d probe=%d probewait=%d state=%d interval=%d nodelay=%d}",
+					len(st.RcvQueue), len(st.RcvBuf), len(st.SndQueue), len(st.SndBuf), st.RcvWnd, st.SndWnd, st.RmtWnd, st.Cwnd, headFrg(st), st.BufLen,
+					st.SndUna, st.SndNxt, st.RcvNxt, st.RxRto, mx, st.Probe, st.ProbeWait, st.State, st.Interval, st.Nodelay)
+			}
+			stallLog("RACE-STALL program=%v accepted=%v cfg=%+v\n  target%s\n  peer%s\n", names, accepted, cfg, desc(target.VerifKCPState()), desc(peer.VerifKCPState()))
+			select {
+			case <-finished:
+				stallLog("  ... resumed by itself within 120 s more\n")
+				return
+			case <-time.After(120 * time.Second):
+			}
+			stallLog("  after 120 s more:\n  target%s\n  peer%s\n", desc(target.VerifKCPState()), desc(peer.VerifKCPState()))
+			target.Close()
+		}
+	}()
 	wg.Wait()
+	close(finished)
 	close(stop)
 	// closing the sessions wakes the background readers/writers whatever the program did to the deadlines
 	// (a program may have cleared the read deadline the pump had set: its Read would otherwise wait for data for ever)
@@ -190,6 +239,22 @@ func runProgram(cfg cfgT, ms []method, seed int64, accepted bool) {
 	lc.Close()
 	cc.Close()
 	cc2.Close()
+}
+
+func stallLog(format string, a ...any) {
+	f, err := os.OpenFile(filepath.Join(vh.EnvStr("VERIF_OUT", os.TempDir()), "race_stall.txt"), os.O_APPEND|os.O_CREATE|os.O_WRONLY, 0o644)
+	if err != nil {
+		return
+	}
+	defer f.Close()
+	fmt.Fprintf(f, format, a...)
+}
+
+func headFrg(st kcp.VerifKCPState) int {
+	if len(st.RcvQueue) == 0 {
+		return -1
+	}
+	return int(st.RcvQueue[0].Frg)
 }
 
 func TestRacePrograms(t *testing.T) {
